@@ -2,6 +2,7 @@
    generated case file CasesC02.v; executable definitions only) *)
 From Coq Require Import ZArith.
 From KM Require Import Base.Bytes Model.Auth Model.Certgen Model.CertgenCases.
+From KM Require Model.Seal.
 Open Scope N_scope.
 
 (* what the harness read out of the response *)
@@ -17,7 +18,8 @@ Record observed := {
   o_eku_client : bool;
   o_eku_pkinit : bool;
   o_exts : list (bs * bs);
-  o_signer : N;                 (* 0: verifies under the published main CA, 1: published Ed25519 CA, 9: neither *)
+  o_signer : N;                 (* the published key it verifies under (key names of Model/Seal.v): 1 the main CA key,
+                                   2 the Ed25519 CA key; 0: under none of the keys the server publishes *)
   o_orgs : list bs;             (* sorted *)
   o_groups : list bs;           (* sorted *)
   o_methods : list bs;          (* sorted *)
@@ -49,7 +51,6 @@ Definition exts_eqb (model obs : list (bs * bs)) : bool :=
   (N.of_nat (length model) =? N.of_nat (length obs)) &&
   forallb (fun kv => opt_bs_eqb (lookup model (fst kv)) (Some (snd kv))) obs.
 
-Definition signer_index (c : cakey) : N := match c with CAMain => 0 | CAEd25519 => 1 end.
 Definition has_eku (e : eku) (l : list eku) : bool :=
   existsb (fun x => match x, e with EkuClientAuth, EkuClientAuth => true | EkuPkinitClient, EkuPkinitClient => true | _, _ => false end) l.
 
@@ -59,7 +60,7 @@ Definition desc_matches (d : certdesc) (o : observed) : bool :=
   Bool.eqb (d_user_type d) (o_user_type o) && Bool.eqb (d_is_ca d) (o_is_ca o) &&
   Bool.eqb (has_eku EkuClientAuth (d_ekus d)) (o_eku_client o) &&
   Bool.eqb (has_eku EkuPkinitClient (d_ekus d)) (o_eku_pkinit o) &&
-  exts_eqb (d_exts d) (o_exts o) && (signer_index (d_signer d) =? o_signer o) &&
+  exts_eqb (d_exts d) (o_exts o) && (d_signer d =? o_signer o) &&
   list_bs_eqb (d_orgs d) (o_orgs o) && list_bs_eqb (d_groups d) (o_groups o) &&
   list_bs_eqb (d_methods d) (o_methods o) && opt_pair_eqb (d_krb d) (o_krb o).
 
@@ -72,7 +73,9 @@ Definition outcome_matches (r : outcome) (o : observed) : bool :=
 (* one issuance request of the C02 harness: a valid session cookie for subject `c_user` carrying
    the U2F bit, POST /certgen/<c_target> *)
 Record c02case := {
-  k_host : bs; k_ed_ca : bool; k_templates : list (bs * bs); k_realm : option bs;
+  k_host : bs; k_ed_ca : bool;
+  k_extra : list N;                           (* keymaster_public_keys_filename: key names, in file order (9 = a foreign key) *)
+  k_templates : list (bs * bs); k_realm : option bs;
   k_expansions : list (bs * (option bs));     (* the shell-expansion oracle for this user *)
   k_groups : option (list bs); k_methods : option (list bs);   (* what the directory answers for this user *)
   k_user : bs; k_target : bs; k_type : N; k_key : option (N * bool); k_add_groups : bool;
@@ -84,13 +87,31 @@ Fixpoint lookup_opt (m : list (bs * option bs)) (k : bs) : option bs :=
   | (k', v) :: r => if bs_eqb k' k then v else lookup_opt r k
   end.
 
+(* the key material of the case: the configuration's key files unsealed with the right passphrase
+   by the sealing model, starting from the configured public-key list *)
+Definition c02_keycfg (c : c02case) : Seal.cfg :=
+  {| Seal.right_pass := key_pass; Seal.main_key := 1; Seal.main_res := Seal.FGood; Seal.role_ok := true;
+     Seal.ed_file := if k_ed_ca c then Some (key_pass, 2, Seal.FGood) else None; Seal.extra_pubkeys := k_extra c |}.
+Definition c02_server (c : c02case) : server :=
+  {| s_keys := fst (Seal.unseal_ca (c02_keycfg c) (Seal.sealed_init (c02_keycfg c)) key_pass);
+     s_cfg := [sU2F]; s_name := fun _ => k_user c; s_host := k_host c;
+     s_templates := k_templates c; s_realm := k_realm c;
+     s_groups := fun _ => k_groups c; s_methods := fun _ => k_methods c |}.
+
 Definition c02_outcome (c : c02case) : outcome :=
-  let st := {| s_sealed := false; s_cfg := [sU2F]; s_name := fun _ => k_user c; s_host := k_host c;
-               s_ed25519_ca := k_ed_ca c; s_templates := k_templates c; s_realm := k_realm c;
-               s_groups := fun _ => k_groups c; s_methods := fun _ => k_methods c |} in
+  let st := c02_server c in
   let q := {| q_method := HPost; q_origin := NoOrigin; q_tls := None; q_cred := Cookie (tok 1 bU2F);
               q_target := k_target c; q_type := type_of_index (k_type c); q_form_ok := true;
               q_key := k_key c; q_add_groups := k_add_groups c |} in
   certgen (fun t _ => lookup_opt (k_expansions c) t) st 0%Z true q.
 
-Definition c02_bad (c : c02case) : bool := negb (outcome_matches (c02_outcome c) (k_obs c)).
+(* the model's signer is among what the model's server publishes (SSH: KeymasterPublicKeys,
+   X.509: caCertDer) - always true by c02_binding, evaluated all the same *)
+Definition c02_model_published (c : c02case) : bool :=
+  match c02_outcome c with
+  | Issued _ d => Seal.mem (d_signer d) (published_ssh (c02_server c)) && Seal.mem (d_signer d) (published_x509 (c02_server c))
+  | Refused _ => true
+  end.
+
+Definition c02_bad (c : c02case) : bool :=
+  negb (outcome_matches (c02_outcome c) (k_obs c) && c02_model_published c).
